@@ -116,8 +116,9 @@ def run_stat(
 
     # avg_total_seq_identity /= len(reads)
     # avg_total_map_ratio /= len(reads)
-    avg_highest_seq_identity /= len(reads)
-    avg_highest_map_ratio /= len(reads)
+    if len(reads) > 0:
+        avg_highest_seq_identity /= len(reads)
+        avg_highest_map_ratio /= len(reads)
     print()
     print("Total alignments:", alignment_count, file=output)
     print("\tPrimary:", total_primary, file=output)
